@@ -92,10 +92,16 @@ Definition line_for (kind k : Z) : option (list (Q * Q)) :=
 Definition rule_for (kind k : Z) : option (list (vec QO * Q)) :=
   option_map (cyl_product_rule QO (disk_for kind)) (line_for kind k).
 (* k = round(max(min(mult * h / r, hi), lo)): the observed k must be a rounding of the exact value *)
-Definition k_ok (kind k : Z) (c : cyld) : bool :=
+(* The source forms the ratio as (self.height / self.radius).value, i.e. from the STORED numbers: when radius and
+   height are given in different length units that is the ratio of the raw numbers, not of the lengths (the number
+   of line points is then chosen for another aspect ratio; any k of the tables is a valid rule, so the statement of
+   the property does not depend on it).  [k_ok_raw] takes the two stored numbers; for a solid given in one unit
+   they are the radius and the height of [c]. *)
+Definition k_ok_raw (kind k : Z) (r h : dy) : bool :=
   let '(mult, lo, hi) := if (kind =? 0)%Z then (5, 5, 15)%Z else if (kind =? 1)%Z then (7, 7, 25)%Z else (11, 11, 35)%Z in
-  let x := qmax (qmin ((mult # 1) * (dyQ (cd_h c) / dyQ (cd_r c))) (hi # 1)) (lo # 1) in
+  let x := qmax (qmin ((mult # 1) * (dyQ h / dyQ r)) (hi # 1)) (lo # 1) in
   Qle_bool (Qabs ((k # 1) - x)) ((1 # 2) + e10 9).
+Definition k_ok (kind k : Z) (c : cyld) : bool := k_ok_raw kind k (cd_r c) (cd_h c).
 
 (* the same model run at the fast fixed-point instance (Sem/BInst.v: BigZ / 2^200, machine-word limbs):
    exact-rational evaluation of the rotated rule and of the transmission integrand needs minutes per
@@ -137,8 +143,10 @@ Definition rule_forB (kind k : Z) : option (list (vec BO * bigZ)) :=
 Fixpoint qsumq (l : list Q) : Q := match l with [] => 0 | x :: l' => Qred (x + qsumq l') end.
 
 (* weights as observed: all positive; their sum = PI (line sum) r^2 h / 2 to 1e-12 (disk weights normalised to PI) *)
-Definition weights_check (c : cyld) (kind k : Z) (ws : list dy) : string :=
-  if negb (k_ok kind k c) then "k-selection"
+(* [c] is the solid with radius and height expressed in the unit of center_of_base, [ws] the weights expressed in
+   that unit cubed; [rraw], [hraw] the numbers stored in the Cylinder (in their own units), which select k *)
+Definition weights_check_u (c : cyld) (rraw hraw : dy) (kind k : Z) (ws : list dy) : string :=
+  if negb (k_ok_raw kind k rraw hraw) then "k-selection"
   else if negb (forallb (fun w => dltb d0 w) ws) then "weight-not-positive"
   else match line_for kind k with
        | None => "no-line-rule"
@@ -149,6 +157,20 @@ Definition weights_check (c : cyld) (kind k : Z) (ws : list dy) : string :=
                          * (dyQ (cd_r c) * dyQ (cd_r c) * dyQ (cd_h c) / 2) in
              if rel_close (dyQ (dsum ws)) want (e10 12) then "" else "weight-sum"
        end.
+Definition weights_check (c : cyld) (kind k : Z) (ws : list dy) : string :=
+  weights_check_u c (cd_r c) (cd_h c) kind k ws.
+(* volume and centre as reported (volume converted to the unit of center_of_base cubed): PI r^2 h to 1e-12,
+   base + (h/2) axis to 1e-12 max(r, h) + 4e-16 |centre|_1 *)
+Definition vol_check (c : cyld) (vol : dy) : string :=
+  if rel_close (dyQ vol) (volume QO (cq c)) (e10 12) then "" else "volume".
+Definition cen_check (c : cyld) (cen : v3d) : string :=
+  let cy := cq c in
+  let mc := center QO cy in
+  let pq := vq cen in
+  let tol := e10 12 * qmax (cy_r cy) (cy_h cy)
+             + (4 # 10000000000000000) * (Qabs (vx mc) + Qabs (vy mc) + Qabs (vz mc)) in
+  if abs_close (vx pq) (vx mc) tol && abs_close (vy pq) (vy mc) tol && abs_close (vz pq) (vz mc) tol then ""
+  else "centre".
 
 (* model vs implementation on selected points of the rule (index, point, weight) *)
 Definition quad_check (c : cyld) (kind k : Z) (obs : list (Z * v3d * dy)) : string :=
@@ -253,6 +275,9 @@ Inductive ccase :=
 | CRayX (c : cyld) (s n : v3d) (L : dy)
 | CInside (c : cyld) (tolk : Z) (pts : list v3d)
 | CWeights (c : cyld) (kind k : Z) (ws : list dy)
+| CWeightsU (c : cyld) (rraw hraw : dy) (kind k : Z) (ws : list dy)
+| CVol (c : cyld) (vol : dy)
+| CCen (c : cyld) (cen : v3d)
 | CQuad (c : cyld) (kind k : Z) (obs : list (Z * v3d * dy))
 | CTrans (c : cyld) (kind k : Z) (mu to_det : dy) (beam det : v3d) (T : dy)
 | CTransL (c : cyld) (kind k : Z) (to_det : dy) (beam det : v3d) (obs : list (dy * dy))
@@ -265,6 +290,9 @@ Definition check (c : ccase) : string :=
   | CRayX c s n L => ray_check_exact c s n L
   | CInside c tk pts => inside_all c tk pts
   | CWeights c kind k ws => weights_check c kind k ws
+  | CWeightsU c rr hr kind k ws => weights_check_u c rr hr kind k ws
+  | CVol c vol => vol_check c vol
+  | CCen c cen => cen_check c cen
   | CQuad c kind k obs => quad_check c kind k obs
   | CTrans c kind k mu td beam det T => trans_check c kind k mu td beam det T
   | CTransL c kind k td beam det obs => trans_check_l c kind k td beam det obs
